@@ -214,8 +214,20 @@ pub fn decode_call(src: &mut crate::engine::source::Source) -> RecCall {
     }
 }
 
+/// A metric handle a caller keeps after the registering call returned.
+pub enum KeptHandle {
+    C(metrics::Counter),
+    G(metrics::Gauge),
+    H(metrics::Histogram),
+}
+
 impl RecCall {
     pub fn apply(&self, rec: &dyn Recorder) {
+        self.apply_keeping(rec, None)
+    }
+
+    /// Like `apply`; with `keep`, the handle a register call obtained is stored there instead of being dropped.
+    pub fn apply_keeping(&self, rec: &dyn Recorder, mut keep: Option<&mut Vec<KeptHandle>>) {
         match self {
             RecCall::Describe { kind, name, unit, desc } => match kind {
                 'c' => rec.describe_counter(name.clone().into(), *unit, desc.clone().into()),
@@ -235,6 +247,9 @@ impl RecCall {
                                 h.absolute(*v)
                             }
                         }
+                        if let Some(k) = keep.as_mut() {
+                            k.push(KeptHandle::C(h));
+                        }
                     }
                     'g' => {
                         let h = rec.register_gauge(&key, m);
@@ -245,11 +260,17 @@ impl RecCall {
                                 _ => h.set(f64::from_bits(*v)),
                             }
                         }
+                        if let Some(k) = keep.as_mut() {
+                            k.push(KeptHandle::G(h));
+                        }
                     }
                     _ => {
                         let h = rec.register_histogram(&key, m);
                         for (_, v) in updates {
                             h.record(f64::from_bits(*v))
+                        }
+                        if let Some(k) = keep.as_mut() {
+                            k.push(KeptHandle::H(h));
                         }
                     }
                 }
